@@ -124,7 +124,7 @@ def sx_head_at_diff(a, b):
     return "%s/%s" % (head(b), head(a))
 
 
-def parser_tie(ctx, pend, oexe, pexe):
+def parser_tie(ctx, pend, oexe, pexe, sexe=None):
     rng = ctx.rng
     cov = ctx.cov
     total, bad = 0, 0
@@ -157,9 +157,18 @@ def parser_tie(ctx, pend, oexe, pexe):
     # (b) generated trees: show (pp u) must be read back as u (the printer is the specification)
     n_units = 8000 if ctx.thorough else 1000
     n_exprs = 30000 if ctx.thorough else 4000
+    n_mixed = 1500 if ctx.thorough else 250
     sx = []
+    pat = [0, 0, 0]
     for _ in range(n_units):
-        sx.append(("unit", G.sx_unit(G.gen_unit(rng, rng.choice([1, 2, 2, 3])))))
+        u = G.gen_unit(rng, rng.choice([1, 2, 2, 3]))
+        pat = [a + b for a, b in zip(pat, G.disj_cost_patterns(u))]
+        sx.append(("unit", G.sx_unit(u)))
+    # disjunctions in which only some disjuncts carry a cost (`{..} [2] or {..} or {..} [3]`): every disjunct owns its own cost or none
+    for _ in range(n_mixed):
+        u = G.gen_mixed_unit(rng)
+        pat = [a + b for a, b in zip(pat, G.disj_cost_patterns(u))]
+        sx.append(("mixed-cost-unit", G.sx_unit(u)))
     for _ in range(n_exprs):
         e = G.gen_expr(rng, rng.choice([1, 2, 3, 3, 4, 5, 6, 8]))
         sx.append(("expr", "(cu (types) (methods) (preds) (stmts (expr %s)))" % G.sx_expr(e)))
@@ -209,7 +218,50 @@ def parser_tie(ctx, pend, oexe, pexe):
                 report("corr:parse:mutated:%s/%s" % (m.split(" ")[0] + (" " + m.split(" ")[1] if m.startswith("ERR") else ""), a.split(" ")[0] + (" " + a.split(" ")[1] if a.startswith("ERR") else "")),
                        {"kind": "parser-differs-from-model", "input_hex": x.hex(), "input": x[:300].decode("latin1"), "implementation": da, "model": dm}, False)
     dist["mutated-accepted"] = acc
-    cov["parser"] = {"programs": total, "by_generator": dist, "disagreements": bad}
+
+    # (d) the destruction path: the sanitizer build of the same harness parses AND destroys the compilation unit (every node of the
+    # tree is deleted by its owner exactly once); no report (ABORT), no memory left behind for an accepted program (LEAK), same tree.
+    # Rejected programs leave partially built trees behind in the pinned implementation (no ownership on the error path), so for
+    # them only the outcome class is compared.
+    san = {"inputs": 0, "accepted": 0, "findings": 0}
+    if sexe:
+        idx_mixed = [i for i, k in enumerate(kinds) if k == "mixed-cost-unit"]
+        idx_unit = [i for i, k in enumerate(kinds) if k == "unit"]
+        idx_expr = [i for i, k in enumerate(kinds) if k == "expr"]
+        sel = (rng.sample(idx_mixed, min(len(idx_mixed), 1500 if ctx.thorough else 150)) +
+               rng.sample(idx_unit, min(len(idx_unit), 3000 if ctx.thorough else 350)) +
+               rng.sample(idx_expr, min(len(idx_expr), 2000 if ctx.thorough else 150)))
+        sdata = [texts[i] for i in sel] + [open(f, "rb").read() for f in example_files()]
+        msel = rng.sample(range(len(muts)), min(len(muts), 3000 if ctx.thorough else 400))
+        sdata += [muts[i] for i in msel]
+        plain = [lang_lib.canon_parse(x) for x in lang_lib.run_harness(pexe, sdata, jobs=4, tmo=5)]
+        sout = lang_lib.run_harness(sexe, sdata, jobs=8, tmo=60, as_mb=0,
+                                    env_extra={"ASAN_OPTIONS": "detect_leaks=1:abort_on_error=0", "UBSAN_OPTIONS": "print_stacktrace=1"})
+        for x, p, a in zip(sdata, plain, sout):
+            total += 1
+            san["inputs"] += 1
+            leak = a.endswith(" LEAK")
+            a0 = lang_lib.canon_parse(a[:-5] if leak else a)
+            rep = {"kind": "parser-sanitizer-run", "build": "-O1 -fsanitize=address,undefined + LeakSanitizer; the unit is destroyed after printing",
+                   "input_hex": x.hex(), "input": x[:400].decode("latin1"), "outcome": a[:300], "outcome_of_the_plain_build": p[:300],
+                   "stderr_tail": lang_lib.run_harness.last_stderr[-1500:]}
+            if p.startswith("OK"):
+                san["accepted"] += 1
+                if lang_lib.outcome_class(a0) in ("ABORT", "HANG"):
+                    san["findings"] += 1
+                    report("parse:destroying-the-tree:%s" % lang_lib.outcome_class(a0), rep, True)
+                elif leak:
+                    san["findings"] += 1
+                    report("parse:destroying-the-tree:leak", rep, True)
+                elif a0 != p:
+                    san["findings"] += 1
+                    report("parse:sanitizer-build-differs", rep, True)
+            elif lang_lib.outcome_class(a0) != lang_lib.outcome_class(p):
+                san["findings"] += 1
+                report("parse:sanitizer-build:%s/%s" % (lang_lib.outcome_class(p), lang_lib.outcome_class(a0)), rep, True)
+    cov["parser"] = {"programs": total, "by_generator": dist, "disagreements": bad,
+                     "disjunctions": {"generated": pat[0], "mixed_cost": pat[1], "costless_disjunct_after_a_costed_one": pat[2]},
+                     "destruction_under_sanitizers": san}
     return total, bad, nontrivial
 
 
@@ -349,7 +401,8 @@ def run(ctx):
     lexe, l1 = lang_build.build_lex()
     pexe, l2 = lang_build.build_parse()
     eexe, l3 = lang_build.build_eval()
-    for name, exe, lg in (("h_lex", lexe, l1), ("h_parse", pexe, l2), ("h_eval", eexe, l3)):
+    sexe, l4 = lang_build.build_parse(san=True)
+    for name, exe, lg in (("h_lex", lexe, l1), ("h_parse", pexe, l2), ("h_eval", eexe, l3), ("h_parse_san", sexe, l4)):
         if not exe:
             ctx.violation("build:" + name, {"kind": "harness-build-failed", "log": lg[-3000:]}, no_input=True)
             return
@@ -360,7 +413,7 @@ def run(ctx):
 
     n1, b1, nt1 = lexer_tie(ctx, pend, oexe, lexe)
     ctx.log("lexer tie: %d inputs, %d disagreements" % (n1, b1))
-    n2, b2, nt2 = parser_tie(ctx, pend, oexe, pexe)
+    n2, b2, nt2 = parser_tie(ctx, pend, oexe, pexe, sexe)
     ctx.log("parser tie: %d programs, %d disagreements" % (n2, b2))
     n3, b3, nt3 = eval_tie(ctx, pend, oexe, eexe)
     ctx.log("evaluation tie: %d programs, %d disagreements" % (n3, b3))
@@ -378,7 +431,8 @@ def run(ctx):
     cov["pending_fixes_hit"] = pend.hit
     cov["rule"] = ("lexer: every state of the keyword automaton x every next byte, every first byte, all operator pairs, token soup, "
                    "examples and byte mutations, `show` of random well-formed token lists; parser: all example programs, `show (pp u)` of "
-                   "random compilation units and expression trees (depth <= 5, all node kinds), token mutations; evaluation: random LINEAR "
+                   "random compilation units (incl. units built around disjunctions in which only some disjuncts carry a cost) and expression trees "
+                   "(depth <= 8, all node kinds), token mutations, and a subset of all of these parsed AND destroyed under ASan/UBSan/LSan; evaluation: random LINEAR "
                    "arithmetic trees over literals and pinned variables, boolean formulas over pinned variables and relations; non-trivial = "
                    "more than 4 tokens / a distinct tree / a distinct program")
     ctx.sample({"lexer_inputs": n1, "parser_programs": n2, "evaluation_programs": n3})
@@ -412,5 +466,9 @@ def replay(path):
         exe, _ = lang_build.build_parse()
         x = bytes.fromhex(r["input_hex"])
         print("implementation:", lang_lib.run_harness(exe, [x])[0][:2000])
+        if r.get("kind") == "parser-sanitizer-run":
+            sexe, _ = lang_build.build_parse(san=True)
+            print("sanitizer build:", lang_lib.run_harness(sexe, [x], tmo=60, as_mb=0, env_extra={"ASAN_OPTIONS": "detect_leaks=1:abort_on_error=0"})[0][:2000])
+            print(lang_lib.run_harness.last_stderr[-3000:])
         print("model         :", lang_lib.run_oracle(oexe, ["parse " + x.hex()])[0][:2000])
     return 0
